@@ -140,7 +140,8 @@ def gen_valid_history(rng, cfg, nops, slot=0, ratio_changes="any", chunk_changes
     mask = "-" if masks == "none" else rand_mask(rng, cfg.nch)
     sg = sig or rand_sig(rng)
     feats = set()
-    d = " dump" if dump else ""
+    # FFT slots: the model's data plane (naive-DFT unit) is compared by tolerance, which needs the values
+    d = " dump" if (dump or cfg.kind in FFT) else ""
     for _ in range(nops):
         c = rng.random()
         if masks == "vary" and rng.random() < 0.2:
